@@ -12,9 +12,17 @@ families, and the spellings lenient number readers accept (inf / nan words, hex 
 are also written BETWEEN QUOTES - as string values and object keys, alone and next to real numbers, plain and with
 an escaped character; the history variable nums (literals written by the EmitNumber action) and the invariants
 KindsDoNotCross / QuotedIsNoNumber state that the enforced verdict depends on the numbers alone.
+The ORDER of keys (CanonJSON.tla section 8b): the canonical order is the order of code points, stated in the
+specification as the order of the UTF-8 bytes (KeyOrderIsByteOrder, CanonKeysInByteOrder) and told apart from the
+order of UTF-16 code units, which differs exactly across the surrogate gap (UnitOrderDiffersExactly); the order
+family writes keys of every class an ordering can tell apart (ASCII, two-byte, BMP below / above the surrogates,
+supplementary planes - raw and as escaped surrogate pairs -, boundary characters of each) against each other: alone,
+after common prefixes, before misleading suffixes, against their own extensions, in nested objects, three at a
+time, and the whole alphabet in one object (also as members 114..129 of a wide one).  A disagreement that is a
+matter of member order is keyed C01/canon/key-order/<class that belongs first>-before-<class found first>.
 
 code -> spec: a seeded driver builds random documents from tokens (depth <= 6, random BMP / astral code
-points, random number literals, number-like string values and keys, token-level damage), logs tokens and observed results; CanonJSON_trace.tla
+points, random number literals, number-like string values and keys, keys over an alphabet of every ordering class, token-level damage), logs tokens and observed results; CanonJSON_trace.tla
 parses the tokens with the specification's reader and re-derives every logged result.  Rejected lines are
 turned into generation records by the same module (TRACE_MODE=explain) and re-executed through the replay
 harness in fresh processes."""
@@ -69,17 +77,31 @@ def run(ctx):
         "a string or object key is a string whatever its characters are: the room version 6 rule applies to values of "
         "kind number only (NumLook of CanonJSON.tla classifies what a number reader would make of a string; no expected "
         "result depends on it)",
+        "object keys are ordered as sequences of code points of the DECODED keys (= bytewise order of their UTF-8), not as "
+        "UTF-16 code units (RFC 8785) and not as the escaped text",
     ]
     ctx.exhaustive = True
     ctx.notes["rule"] = ("every finished behaviour of the CanonJSON.tla writer for every scenario of the CanonJSON_gen.tla families "
-                         "(str, num, numstr, keynum, lenient, keys, ws, nest, mix, cor, edge, look, nestkeys, wide, dup) within the tier's budgets, each run for all 16 room versions; "
+                         "(str, num, numstr, keynum, lenient, keys, order, ws, nest, mix, cor, edge, look, nestkeys, wide, dup) within the tier's budgets, each run for all 16 room versions; "
                          "plus recorded random documents validated by CanonJSON_trace.tla; "
                          "distinct = distinct (family, text class, corrupt action, inadmissible number, -0, number look of the strings) classes")
     cfg = "CanonJSON_gen_%s.cfg" % ctx.tier
     ctx.notes["constants"] = cfg
 
     # ---- spec -> code
-    r = ctx.tlc("CanonJSON_gen", cfg, workers=min(6 if quick else 12, ctx.workers), timeout=2400, heap=None if quick else "24g")
+    # heap: the quick run needs about 1.5 GB; without a cap the JVM takes a quarter of the machine's memory before it
+    # collects, and on a machine shared with other checks the kernel's OOM killer ends it (TLC rc=137: a machinery
+    # error, not a verdict).  A killed run is tried once more.
+    def gen():
+        return ctx.tlc("CanonJSON_gen", cfg, workers=min(6 if quick else 12, ctx.workers), timeout=2400,
+                       heap="3g" if quick else "24g")
+    try:
+        r = gen()
+    except MachineryError as e:
+        if "rc=137" not in str(e):
+            raise
+        ctx.log("TLC was killed (rc=137, out of memory on the machine?): once more")
+        r = gen()
     recs, args = _split(r.records)
     ctx.replay_and_compare("c01", recs, args=args, pkg="c01")
 
